@@ -15,7 +15,7 @@ import ast
 
 from ..cfg import ENTRY, EXIT, header_parts
 from ..effects import FS_DELETE, FS_WRITE, USER_CALL
-from ..flow import Defs, Scope, conjuncts, unreachable_when
+from ..flow import Defs, Scope, absence_by_none, conjuncts, guard_facts, rejections, unreachable_when
 from ..loader import AnalysisError, FuncInfo, dotted, norm, walk_no_nested
 from ..report import Ctx
 from ..selftest import Mutant
@@ -153,9 +153,43 @@ def rule_wired(ctx: Ctx) -> None:  # noqa: C901, PLR0912, PLR0915
     ctx.add("1-wired", rs, lazy_any[0] if lazy_any else rs.node, ok, "every storage name of a per-output dict is looked up (no short-circuit)" if ok else
             "storage names are looked up inside a short-circuiting any()/all(): names after the first hit are not validated before the folder is written", key="all-storage-names")
     prep = P.func(f"{PREP}.prepare_run")
-    first = [s for s in prep.node.body if not (isinstance(s, ast.Expr) and isinstance(s.value, ast.Constant))][0]
-    ok = isinstance(first, ast.If) and norm(first.test) == "not parallel and executor" and any(isinstance(x, ast.Raise) for x in first.body)
-    ctx.add("1-wired", prep, first, ok, "an executor with parallel=False is rejected first" if ok else "prepare_run no longer starts by rejecting an executor with parallel=False", key="executor-parallel")
+    # an executor together with parallel=False is rejected before anything is written
+    cfg_p = ctx.cfg(prep)
+    helpers = {f_.name: f_ for f_ in Scope(ctx, prep).funcs[1:]}
+
+    def rejects_exec(st: ast.AST) -> bool:
+        if isinstance(st, ast.Raise):
+            n_ = cfg_p.node(st)
+            facts = [t for t, _p in guard_facts(cfg_p, Defs(prep), n_)]
+            return any(t == "parallel" or t.startswith("parallel ") for t in facts) and any("executor" in t for t in facts)
+        for part in header_parts(st):
+            for c in ast.walk(part):
+                if isinstance(c, ast.Call):
+                    last = dotted(c.func).rsplit(".", 1)[-1] if dotted(c.func) else getattr(c.func, "attr", "")
+                    h = helpers.get(last)
+                    if h is not None:
+                        for r in rejections(ctx.cfg(h), h.node, Defs(h)):
+                            txt = " ".join(r["conds"])
+                            if "parallel" in txt and "executor" in txt:
+                                return True
+        return False
+
+    rej_nodes = set(cfg_p.nodes(rejects_exec))
+    writes = [n_ for n_ in cfg_p.nodes() if any(isinstance(c, ast.Call) and dotted(c.func).endswith("RunInfo.create") for part in header_parts(cfg_p.stmt[n_]) for c in ast.walk(part))]
+    if writes:
+        # the test that leads to the rejection must dominate the first write
+        tests = {g_ for r_ in rej_nodes for g_ in cfg_p.nodes(lambda s_: isinstance(s_, ast.If)) if cfg_p.dominates(g_, r_)} | {r_ for r_ in rej_nodes if not isinstance(cfg_p.stmt[r_], ast.Raise)}
+        before = bool(tests) and all(any(cfg_p.dominates(t_, w_) for t_ in tests) for w_ in writes)
+        late = bool(rej_nodes) and not before
+        ctx.tri("1-wired", prep, cfg_p.stmt[sorted(rej_nodes)[0]] if rej_nodes else prep.node, before, late or not rej_nodes, "an executor with parallel=False is rejected before the run folder is touched",
+                "the executor/parallel=False rejection happens only after RunInfo.create has written to the run folder (or not at all): a rejected call alters an existing run opened with cleanup=False", key="executor-parallel")
+    # validators decide presence by membership: None is a legal default / value
+    n_abs = 0
+    for vf in P.functions_in("pipefunc._pipeline._validation"):
+        sites = absence_by_none(vf.node)
+        n_abs += 1
+        ctx.add("1-wired", vf, sites[0][0] if sites else vf.node, not sites, "presence is decided by membership, not by comparing a looked-up value with None" if not sites else
+                f"`{sites[0][1]}.get(...)` compared with None decides whether an entry exists: a value that IS None (e.g. a default of None) is treated as absent, so the check it guards is skipped for it", key="none-is-a-value")
     # cycle detection on the run/__call__ path: something that certainly sorts topologically must dominate _run
     sorts = {f"{PL}.topological_generations"}
     pl_cls = P.cls(PL)
@@ -341,6 +375,8 @@ def check(ctx: Ctx) -> None:
 
 B, PFF, PR, RIF = "pipefunc/_pipeline/_base.py", "pipefunc/_pipefunc.py", "pipefunc/map/_prepare.py", "pipefunc/map/_run_info.py"
 MUTANTS = [
+    Mutant("defaults-none-as-absent", "pipefunc/_pipeline/_validation.py", "            if arg not in arg_defaults:\n                arg_defaults[arg] = default_value\n            elif default_value != arg_defaults[arg]:\n",
+           "            if (known := arg_defaults.get(arg)) is None:\n                arg_defaults[arg] = default_value\n            elif default_value != known:\n", ("C12.1-wired",), why="round-2 seed C12/6"),
     Mutant("add-no-unique-check", B, "        validate_unique_output_names(f.output_name, self.output_to_func)\n", "", ("C12.1-wired",)),
     Mutant("validate-skips-scopes", B, "        validate_scopes(self.functions)\n        validate_consistent_defaults", "        validate_consistent_defaults", ("C12.1-wired",)),
     Mutant("graph-no-defaults-check", B, "        validate_consistent_defaults(self.functions, output_to_func=self.output_to_func)\n        g = nx.DiGraph()\n", "        g = nx.DiGraph()\n", ("C12.1-wired",), why="seeded C12/2"),
